@@ -174,6 +174,7 @@ def run(prog, rep):
     from . import C08, C04
     C08.lazy_routing(prog, rep)
     C04.memo_rule(prog, rep)
+    C04.forcing_window(prog, rep)      # lazy-only failure (spurious recursion error) where strict succeeds
     # panic where the other mode has an error: no undischarged panic site in the lazy interpreter
     rep.rule("E1.a", e1_panic.RULES["E1.a"] + " (restricted to execution/lazy*: a panic where strict reports an error)")
     sites, per_rule, ctx = e1_panic.run_e1a(prog, rep, fn_filter=lambda f: f.file.startswith("src/execution/lazy"))
